@@ -28,7 +28,7 @@ func runC11(c *Ctx) {
 	p := c.Progs["mod"]
 	c.Rule("C11.E", "encoder/decoder agreement between poll replies and data posts", 7)
 	c.Rule("C11.Q", "messages move only through two FIFO channels with one producer/consumer goroutine", 4)
-	c.Rule("C11.O", "order and completeness on both endpoints", 12)
+	c.Rule("C11.O", "order and completeness on both endpoints", 13)
 	c.Rule("C11.J", "header injection only adds missing keys", 7)
 	const pkg = ModPath + "/agent/websockets"
 
@@ -160,6 +160,7 @@ func runC11(c *Ctx) {
 	ruleCounterOnlyIncrements(c, p, "C11.S")
 
 	// ---- C11.O
+	rulePollErrorOnlyWhenDrained(c, p, "C11.O")
 	se := resolveShimEndpoints(c, p, "C11.O")
 	if se != nil && se.ByName["data"] != nil {
 		d := se.ByName["data"]
@@ -225,6 +226,46 @@ func runC11(c *Ctx) {
 					n++
 					sv = op.Val
 				}
+			}
+		}
+		// the enqueueing select waits for the queue or for the end of the connection and for
+		// nothing else: a request context, a timer or a default arm makes a post give up in the
+		// middle of a batch while the connection is alive — a gap in the stream
+		for _, sc := range chans {
+			if sc.Field != "clientMessages" {
+				continue
+			}
+			for _, op := range sc.Ops {
+				if op.Kind != "send" || Owner(op.Instr) != send {
+					continue
+				}
+				extra := ""
+				if !op.InSelect {
+					continue // a plain blocking send waits for the queue only
+				}
+				if op.HasDefault {
+					extra = "a default arm"
+				}
+				for k, st := range op.Select.States {
+					if k == op.State || st.Dir != types.RecvOnly {
+						continue
+					}
+					own := false
+					for _, r := range Roots(st.Chan) {
+						if call, isCall := r.(*ssa.Call); isCall && !call.Call.IsInvoke() {
+							if _, fld, isF := FieldLoad(call.Call.Value); isF && fld == "done" {
+								own = true
+							}
+						}
+						if _, fld, isF := FieldLoad(r); isF && fld == "closed" {
+							own = true
+						}
+					}
+					if !own {
+						extra = "an arm on " + PathOf(st.Chan)
+					}
+				}
+				c.Check("C11.O", "SendClientMessage:enqueue-waits-only-for-the-connection", p, op.Instr.Pos(), extra == "", "the enqueueing select has the send and the connection's own done/closed arms only", "the select that enqueues a client message also has "+extra+": when the backend applies back-pressure the data post gives up in the middle of a batch although the connection is alive — the earlier messages of the post were delivered, this one and the later ones are dropped")
 			}
 		}
 		ok := n == 1
@@ -456,13 +497,22 @@ func runC11(c *Ctx) {
 				if x, ok := i.(*ssa.If); ok {
 					if v, s, k := ErrNilTest(x); k && CallResult(v, 1, pkg+".injectWebsocketMessage") != nil {
 						// the phi after the if takes the injected value only from the nil-error edge
-						join := x.Block().Succs[s]
-						_ = join
-						okE = true
+						// … and the error branch goes on to the enqueueing selects: no return before them
+						early, _ := (&Walk{Target: func(j ssa.Instruction) bool {
+							r, isR := j.(*ssa.Return)
+							return isR && r.Parent() == send
+						}, Avoid: func(j ssa.Instruction) bool {
+							switch j.(type) {
+							case *ssa.Select, *ssa.Send:
+								return true
+							}
+							return false
+						}, Local: true}).FromBlock(x.Block().Succs[s])
+						okE = early == nil
 					}
 				}
 			})
-			c.Check("C11.J", "send:inject-error-keeps-original", p, ic.Pos(), okE, "the injection error is tested; on error the original message is sent", "the result of injectWebsocketMessage is used without testing its error")
+			c.Check("C11.J", "send:inject-error-keeps-original", p, ic.Pos(), okE, "the injection error is tested; on error the original message is sent", "the result of injectWebsocketMessage is used without testing its error, or a failed injection makes SendClientMessage return before the message is enqueued: messages that cannot be injected (any JSON document that is not an object, non-JSON text) are dropped with a 400 instead of being forwarded unchanged")
 		}
 	}
 	if se != nil && se.ByName["data"] != nil {
